@@ -100,6 +100,21 @@ def run(ctx, rep):
             if idx is not None and val.get("k") == "ctor" and "PointIndex" in val.get("cls", "") and \
                     len(val.get("args", [])) == 1 and _tree_eq(val["args"][0], idx):
                 ok = True
+        # equivalent standard form: std::iota(begin, end, PointIndex(0))
+        for n, b, rk, e in fn.calls():
+            if strip_targs(n.get("fn") or "") == "std::iota":
+                a = n.get("args") or []
+                if len(a) == 3:
+                    v = a[2]
+                    while isinstance(v, dict) and v.get("k") in ("copy", "cast", "icast"):
+                        v = v.get("e")
+                    zero = isinstance(v, dict) and (v.get("v") == 0 or (
+                        v.get("k") == "ctor" and len(v.get("args", [])) == 1 and
+                        isinstance(v["args"][0], dict) and v["args"][0].get("v") == 0))
+                    begins = any(x.get("k") == "call" and strip_targs(x.get("fn") or "").endswith("::begin")
+                                 for x in walk(a[0]))
+                    if zero and begins:
+                        ok = True
         rep.add(Obligation("WITNESS", fn.base, "identity sequence", fn.loc,
                            DISCHARGED if ok else VIOLATION,
                            detail="slot i receives PointIndex(i)" if ok else
